@@ -320,7 +320,7 @@ def instrument(rec):
         setattr(cls, name, w)
     today_ = lambda: d8(Environment.get_instance().trading_dt)
     wrap_marker(SimulationBroker, "before_trading", lambda self, ev: {"k": "B", "today": today_()})
-    wrap_marker(SimulationBroker, "on_bar", lambda self, ev: {"k": "R", "today": today_()})
+    wrap_marker(SimulationBroker, "on_bar", lambda self, ev: {"k": "R", "today": today_(), "dt": Environment.get_instance().calendar_dt})
     wrap_marker(SimulationBroker, "after_trading", lambda self, ev: {"k": "T", "today": today_()})
     wrap_marker(SimulationBroker, "cancel_order", lambda self, order: {"k": "C", "id": order.order_id})
     wrap_marker(Strategy, "open_auction", lambda self, ev: {"k": "A", "today": today_()})
